@@ -14,6 +14,8 @@
  * reader of the key format written after misc/e2undo.c's loader (key block at
  * lblk, keys' data in file order behind it, replay target = fsblk *
  * hdr.fs_block_size), and for an ARBITRARY device byte pp:
+ *   - touched by the backing operation, inside the old device and not saved before
+ *     => exactly one key restores it, to the byte held BEFORE the operation
  *   - touched by the backing operation  => its undo block is marked afterwards
  *   - newly marked and inside the old device => exactly one key restores it, to
  *     the byte the device held BEFORE the operation
@@ -23,10 +25,17 @@
  * chain over exactly the bytes e2undo reads, the in-memory cursor (key_blk_num,
  * undo_blk_num, keys_in_block) is where a reader of the file ends up (Inv after).
  *
- * Block-map ids: undo_write_tdb() indexes W by ABSOLUTE device undo block
- * (fs-relative block + offset / tdb_data_size); the harness uses that convention
- * (vf_wbase).  That try_reopen_undo_file() rebuilds W in the same convention is
- * the re-open harness's job.
+ * "Saved" is defined by the KEYS in the undo file (what e2undo will replay); the
+ * block map is only required to be consistent with them: a block some key covers,
+ * or that the operation touched, is marked (so it is never saved twice), and a
+ * block that is not marked is covered by no key.
+ * Block-map ids (the one representation fact the pre-state needs): undo_write_tdb()
+ * numbers undo blocks by ABSOLUTE device position, id = fs-relative undo block +
+ * offset / tdb_data_size (vf_wbase).  Whether try_reopen_undo_file() rebuilds the
+ * map compatibly is decided behaviourally by the `reopen` harness (FOLLOWUP queries).
+ * OFFMODE=2 (offset not a multiple of the undo block): the queries are split into
+ * "no carry" ((lo % tds) + (offset % tds) < tds, assumed) and OFF_CARRY (the
+ * complement), so that the known shifted-capture defect is isolated in one query.
  */
 #ifdef NO_CRC_CHECK
 #define VF_CHEAP_CRC
@@ -161,7 +170,7 @@ int main(void)
 {
 	io_channel ch = &vf_chan;
 	struct undo_key_block *keyb = (struct undo_key_block *) vf_keyb_store;
-	unsigned long long lo, hi, Q, L, undo0, nk0, total, pp, mp, ui, k0_start = 0, k0_size = 0;
+	unsigned long long lo, hi, L, undo0, nk0, total, pp, mp, ui, k0_start = 0, k0_size = 0;
 	unsigned char w0[NW];
 	errcode_t rc = 0;
 	int i, cnt0, touched, in_w0, in_w1;
@@ -188,9 +197,8 @@ int main(void)
 	ASSUME(IN.offset < (1ULL << 40) && IN.offset % TDS != 0);
 	vf_data.offset = IN.offset;
 #endif
-	Q = (unsigned long long) vf_data.offset / TDS;
-	/* ASSUME: written_block_map ids are absolute device undo blocks: id = fs-relative undo block + offset/tdb_data_size (undo_write_tdb's convention) */
-	vf_wbase = Q;
+	/* ASSUME: written_block_map ids are absolute device undo blocks: id = fs-relative undo block + offset/tdb_data_size (undo_write_tdb's numbering); the checks below use the map only through "marked before / marked after" */
+	vf_wbase = (unsigned long long) vf_data.offset / TDS;
 #define WIDX(m) (m)	/* index in vf_W of fs-relative undo block m */
 
 	/* ---- device */
@@ -272,6 +280,15 @@ int main(void)
 	/* BOUND: the request is 1..MAXBYTES bytes and lies inside the modelled device capacity of NBLK undo blocks */
 	ASSUME(IN.block < DEVCAP && IN.count < DEVCAP && IN.boff < DEVCAP && IN.bsize < DEVCAP);
 	ASSUME(hi > lo && hi - lo <= MAXBYTES && hi <= DEVCAP);
+#if OFFMODE == 2
+#ifdef OFF_CARRY
+	/* the carry case: start of the request within its undo block + offset remainder reaches the next undo block */
+	ASSUME(lo % TDS + (unsigned long long) vf_data.offset % TDS >= TDS);
+#else
+	/* ASSUME: (OFFMODE=2 queries other than OFF_CARRY) no carry: (lo % tds) + (offset % tds) < tds; the complement is the OFF_CARRY query, a known finding */
+	ASSUME(lo % TDS + (unsigned long long) vf_data.offset % TDS < TDS);
+#endif
+#endif
 #ifndef BEYOND_END
 	/* ASSUME: the last undo block of the request starts inside the current device (the request may still extend past its end: short capture); requests whose last undo block lies entirely beyond the end are the BEYOND_END queries */
 	ASSUME(((hi - 1) / TDS) * TDS < L);
@@ -350,8 +367,14 @@ int main(void)
 		if (rw_fidx == (unsigned long long) i)
 			val = vf_uf[i / TDS][i % TDS];
 	touched = (pp >= vf_wlo && pp < vf_whi);
+	if (touched && pp < L && !in_w0) {
+		PROP(rw_cnt == 1, "a touched byte not saved before is restored by exactly one key in the undo file");
+		PROP(val == old, "that key restores the byte the device held before the operation");
+	}
 	if (touched)
 		PROP(in_w1, "every byte the backing operation touches lies in an undo block marked as saved");
+	if (rw_cnt > cnt0)
+		PROP(in_w1, "block map consistent with the keys: a block a new key covers is marked");
 	if (in_w1 && !in_w0 && pp < L) {
 		PROP(rw_cnt == 1, "a newly saved undo block is restored by exactly one key");
 		PROP(val == old, "the key restores the byte the device held before the operation");
